@@ -118,6 +118,7 @@ class Evaluator:
         self.opaque_methods: set[str] = set()
         self._stack: list[int] = []
         self._call_aliases: set[str] | None = None
+        self.inline_private_static = True  # Cls._helper(...) private static helpers are read at the call site (rules name the ones they want opaque)
         self.py_phis: set = set()  # joins written as Python conditional expressions (as opposed to lax.cond / FlagOp.cond joins)
 
     def call_aliases(self) -> set:
@@ -264,10 +265,45 @@ def _iterable(it):
     return it
 
 
+def fam_base(F):
+    """the iterable a family term ranges over, seen through nested comprehensions / zips of families over one iterable (None: not a family)"""
+    if is_t(F, "fam"):
+        return norm_it(F[1])
+    if is_t(F, "mswitch"):
+        return F
+    if is_t(F, "phi"):
+        a, b = fam_base(F[2]), fam_base(F[3])
+        return a if a is not None and a == b else None
+    return None
+
+
+def _fam_like(F):
+    return is_t(F, "fam") or is_t(F, "mswitch") or (is_t(F, "phi") and _fam_like(F[2]) and _fam_like(F[3]))
+
+
+def norm_it(it):
+    """canonical iterable of a comprehension / loop: [g(y) for y in [f(x) for x in xs]] ranges over xs (the element is substituted by mk_elem);
+    zip(F, G) of families over one iterable ranges over that iterable"""
+    if is_t(it, "fam"):
+        return norm_it(it[1])
+    if is_t(it, "phi"):
+        b = fam_base(it)
+        return b if b is not None else it
+    if is_t(it, "zip") and it[1]:
+        bases = [fam_base(x) if fam_base(x) is not None else x for x in it[1]]
+        if all(b == bases[0] for b in bases) and any(fam_base(x) is not None for x in it[1]):
+            return bases[0]
+    return it
+
+
 def mk_fam(it, body):
     """[body for ... in it]; an enumerate whose counter is not used is the plain iteration"""
     if is_t(it, "enumerate") and not contains(body, ("enumidx", it[1])) and not any(is_t(x, "closure") for x in subterms(body)):
         it = it[1]
+    it = norm_it(it)
+    if is_t(it, "phi"):
+        # a comprehension over (A if c else B) is the join of the comprehensions over A and over B
+        return mk_phi(it[1], mk_fam(it[2], resolve(body, it[1], True)), mk_fam(it[3], resolve(body, it[1], False)))
     return ("fam", it, body)
 
 
@@ -288,6 +324,30 @@ def mk_call(f, args, kw):
         # Diff.tree_primal / tree_tangent / no_change / unknown_change are tree maps: they distribute over a literal tuple
         if is_t(f, "attr") and f[2] in _TREE_TAGS and is_t(f[1], "global") and f[1][1].split(".")[-1] == "Diff" and is_t(a, "tuple") and not _has_star(a):
             return mk_tuple(mk_call(f, (x,), ()) for x in a[1])
+        # list(zip(F, G, ..)) of families over one iterable is the family of tuples
+        if f in (G("tuple"), G("list")) and is_t(a, "call") and a[1] == G("zip") and a[2] and not a[3] and not any(is_t(x, "star") for x in a[2]):
+            bases = [fam_base(x) for x in a[2]]
+            if all(b_ is not None and b_ == bases[0] for b_ in bases):
+                return ("fam", bases[0], mk_tuple(mk_elem(x) for x in a[2]))
+        if f in (G("tuple"), G("list")) and _fam_like(a):
+            return a
+        if f == G("zip") and is_t(a, "star") and is_t(a[1], "phi"):
+            ca, cb = mk_call(f, (("star", a[1][2]),), ()), mk_call(f, (("star", a[1][3]),), ())
+            if is_t(ca, "tuple") and is_t(cb, "cols"):
+                cb = mk_tuple(mk_proj(cb, i) for i in range(len(ca[1])))
+            elif is_t(cb, "tuple") and is_t(ca, "cols"):
+                ca = mk_tuple(mk_proj(ca, i) for i in range(len(cb[1])))
+            return mk_phi(a[1][1], ca, cb)
+        # zip(*F) of a family of n-tuples: its n columns (a literal tuple of families when the width is known, else a lazy `cols` term)
+        if f == G("zip") and is_t(a, "star") and fam_base(a[1]) is not None:
+            el = mk_elem(a[1])
+            width = len(el[1]) if is_t(el, "tuple") and not _has_star(el) else (len(el[2][1]) if is_t(el, "mselem") and is_t(el[2], "tuple") and not _has_star(el[2]) else None)
+            if width:
+                return mk_tuple(("fam", fam_base(a[1]), mk_proj(el, i)) for i in range(width))
+            return ("cols", a[1])
+        # De Morgan: any(not b ...) is not all(b ...)
+        if f in (G("any"), G("all")) and is_t(a, "fam") and is_t(a[2], "un") and a[2][1] == "not":
+            return ("un", "not", ("call", G("all") if f == G("any") else G("any"), (("fam", a[1], a[2][2]),), ()))
         # tuple(x) / list(x) of something that already is a tuple / list / slice
         if f in (G("tuple"), G("list")):
             if is_t(a, "tuple") or is_t(a, "list"):
@@ -320,7 +380,19 @@ def mk_phi(test, a, b):
         return mk_phi(("cmp", "is", test[2], test[3]), b, a)
     if is_t(a, "tuple") and is_t(b, "tuple") and len(a[1]) == len(b[1]) and not _has_star(a) and not _has_star(b):
         return mk_tuple(mk_phi(test, x, y) for x, y in zip(a[1], b[1]))
+    if is_t(a, "fam") and is_t(b, "fam") and a[1] == b[1]:
+        # ([f(x) for x in A] if c else [g(x) for x in A]) is [(f(x) if c else g(x)) for x in A]
+        return ("fam", a[1], a[2] if a[2] == b[2] else mk_phi(test, a[2], b[2]))
     return ("phi", test, a, b)
+
+
+def resolve(t, test, pol):
+    """t under the assumption that `test` has truth value pol: joins on that very test collapse"""
+    if is_t(t, "phi") and t[1] == test:
+        return resolve(t[2] if pol else t[3], test, pol)
+    if isinstance(t, tuple):
+        return tuple(resolve(x, test, pol) for x in t)
+    return t
 
 
 _TREE_TAGS = ("tree_primal", "tree_tangent", "no_change", "unknown_change")
@@ -348,6 +420,14 @@ def mk_proj(base, i: int):
             if not any(is_t(x, "star") for x in items[i:]) and -i <= len(items):
                 return items[i]
         return ("proj", base, i)
+    if is_t(base, "cols") and i >= 0:
+        return ("fam", fam_base(base[1]), mk_proj(mk_elem(base[1]), i))
+    if is_t(base, "fam") and i >= 0 and _cols_leaves(base[1]):
+        # (g(col) for col in zip(*F))[i] is g(column i)
+        body = base[2]
+        for c_ in _cols_leaves(base[1]):
+            body = subst(body, ("elem", c_), mk_proj(c_, i))
+        return renorm(body)
     if is_t(base, "stack"):
         return ("stack", mk_proj(base[1], i))
     if is_t(base, "phi"):
@@ -461,6 +541,42 @@ def phi_paths(t, conds=()):
         return ((test, False),)
 
     return phi_paths(t[2], conds + pos(t[1])) + phi_paths(t[3], conds + neg(t[1]))
+
+
+def _cols_leaves(it):
+    """the `cols` terms an iterable is made of (through phi joins); [] when anything else occurs"""
+    if is_t(it, "cols"):
+        return [it]
+    if is_t(it, "phi"):
+        a, b = _cols_leaves(it[2]), _cols_leaves(it[3])
+        return a + b if a and b else []
+    return []
+
+
+def subst(t, old, new):
+    if t == old:
+        return new
+    if isinstance(t, tuple):
+        return tuple(subst(x, old, new) for x in t)
+    return t
+
+
+def renorm(t):
+    """re-apply the canonical constructors after a substitution (bottom-up)"""
+    if not isinstance(t, tuple):
+        return t
+    t = tuple(renorm(x) for x in t)
+    if is_t(t, "call") and len(t) == 4:
+        return mk_call(t[1], t[2], t[3])
+    if is_t(t, "proj") and len(t) == 3 and isinstance(t[2], int):
+        return mk_proj(t[1], t[2])
+    if is_t(t, "phi") and len(t) == 4:
+        return mk_phi(t[1], t[2], t[3])
+    if is_t(t, "fam") and len(t) == 3:
+        return mk_fam(t[1], t[2])
+    if is_t(t, "elem") and len(t) == 2:
+        return mk_elem(t[1])
+    return t
 
 
 def subterms(t):
@@ -1010,6 +1126,16 @@ class _Ctx:
         return its[0] if len(its) == 1 else ("nest", tuple(its))
 
     def comp(self, e, env):
+        if len(e.generators) == 1 and not e.generators[0].ifs:
+            lit = _iterable(self.expr(e.generators[0].iter, env))
+            if (is_t(lit, "tuple") or is_t(lit, "list")) and not _has_star(lit) and 0 < len(lit[1]) <= 8:
+                # a comprehension over a literal tuple is the literal list of its instances
+                out = []
+                for item in lit[1]:
+                    cenv = dict(env)
+                    self.assign(e.generators[0].target, item, cenv)
+                    out.append(self.expr(e.elt, cenv))
+                return ("list", tuple(out))
         cenv = dict(env)
         it = self.comp_iter(e.generators, cenv)
         body = self.expr(e.elt, cenv)
@@ -1226,6 +1352,11 @@ class _Ctx:
     def multi_switch(self, idx, fs, f_args):
         if is_t(fs, "phi") and is_t(f_args, "phi") and fs[1] == f_args[1]:
             return mk_phi(fs[1], self.multi_switch(idx, fs[2], f_args[2]), self.multi_switch(idx, fs[3], f_args[3]))
+        for fam_ in (fs, f_args):
+            if is_t(fam_, "fam") and is_t(fam_[2], "phi"):
+                # the branch functions / arguments were chosen by a Python-level test: one switch per outcome
+                c = fam_[2][1]
+                return mk_phi(c, self.multi_switch(idx, resolve(fs, c, True), resolve(f_args, c, True)), self.multi_switch(idx, resolve(fs, c, False), resolve(f_args, c, False)))
         if is_t(fs, "fam") and is_t(f_args, "fam"):
             it = fs[1] if fs[1] == f_args[1] else ("zip", (fs[1], f_args[1]))
             a = f_args[2]
@@ -1279,7 +1410,8 @@ class _Ctx:
             if cis:
                 ci = cis[0]
                 if name in ci.methods and ((short, name) in _INLINE_STATIC or (
-                        name.startswith("_") and not name.startswith("__") and name not in ev.opaque_methods and _pure_wiring(ci.methods[name]))):
+                        name.startswith("_") and not name.startswith("__") and name not in ev.opaque_methods and _is_static(ci.methods[name])
+                        and (_pure_wiring(ci.methods[name]) or (ev.inline_private_static and not _is_opaque_fn(ci.methods[name]) and not _numeric_kernel(ci.methods[name]))))):
                     fn = ci.methods[name]
                     clo = Closure(fn, {}, ci.module, ci, f"{short}.{name}")
                     r = self.inline(clo, list(args), kwargs)
@@ -1446,6 +1578,20 @@ def _always_returns(body) -> bool:
 
 
 _WIRING_BUILTINS = {"tuple", "list", "len", "isinstance", "zip", "range", "dict", "enumerate", "reversed"}
+
+
+def _is_static(fn) -> bool:
+    return any((_dotted(d) or "") == "staticmethod" for d in fn.decorator_list)
+
+
+def _numeric_kernel(fn) -> bool:
+    """the helper itself computes on arrays (a direct jnp.* / jax.numpy.* / jax.lax.* call, or shape validation): rules treat such helpers as atoms"""
+    for n in ast.walk(fn):
+        if isinstance(n, ast.Call):
+            d = _dotted(n.func) or ""
+            if d.split(".")[0] in ("jnp", "np") or d.startswith("jax.numpy.") or d.startswith("jax.lax.") or d.startswith("lax."):
+                return True
+    return False
 
 
 def _pure_wiring(fn) -> bool:
